@@ -40,7 +40,7 @@ def build(variant="default"):
     wraps = ["-Wl,--wrap=" + s for s in WRAP_PTHREAD + WRAP_XL]
     run_cmd(["clang++"] + SAN + objs + [os.path.join(d, "simcore.o"), os.path.join(d, "simxl_h.o")] + wraps + ["-lpthread", "-lm", "-o", exe])
     mark_done(d)
-    prune_cache("e2", keep=6)
+    prune_cache("e2", keep=10)
     return exe
 
 
